@@ -132,6 +132,8 @@ func (e *Env) resolveType(name string) types.Type {
 		return tString
 	case "float64":
 		return tFloat
+	case "struct{}":
+		return types.NewStruct(nil, nil)
 	case "any":
 		return types.Universe.Lookup("any").Type()
 	case "error":
